@@ -187,6 +187,11 @@ func BuildRoot(w *World, root string, lib *OpLib) {
 		// R1 with pending tradeshield orders of TWO owners, spot and perpetual, created alternately (ids
 		// 1..2 each): removing an order that is not the newest, then creating one, is two ops away
 		prefix = []string{"perp_open_long_t1", "perp_open_short_t2", "llp_open_t1_x3", "swap_in_p1_usdc_atom_L", "swap_in_p2_elys_usdc_L", "gap_1d", "mc_claim_lp1", "commit_eden_lp1", "vest_eden_lp1", "stake_elys_lp1", "ts_spot_limitbuy_unmet_own1", "ts_spot_limitbuy_met_own2", "ts_perp_long_unmet_own1", "ts_perp_long_met_own2"}
+	case "R13":
+		// a third, ORACLE pool created far off its target weights (beyond the weight-difference threshold:
+		// rebalancing trades earn a bonus) whose rebalance treasury holds only the weight-breaking fee of
+		// one medium swap — less than two rebalancing bonuses
+		prefix = []string{"perp_open_long_t1", "perp_open_short_t2", "llp_open_t1_x3", "swap_in_p1_usdc_atom_L", "swap_in_p2_elys_usdc_L", "gap_1d", "mc_claim_lp1", "commit_eden_lp1", "vest_eden_lp1", "stake_elys_lp1", "create_oracle_pool_imbalanced_lp1", "swap_in_p3_usdc_atom_M"}
 	case "R4":
 		// R1 with a large loan outstanding for 30 days under the default every-block sweep: the
 		// interest is booked, so the vault's redemption rate sits visibly above 1 (≈ 1.005)
